@@ -184,7 +184,8 @@ theorem vswap_spec {x : Array K} {p k : Nat} (hp : p < x.size) (hk : k < x.size)
   · intro a
     rw [vf_set _ hk', vf_set _ hp]
 
-/-- the pivot search returns row 0 (its initial value) or a row at or below `start` -/
+/-- the pivot search returns a row at or below `start` (statement kept in the weaker historical form
+    `p = 0 ∨ start ≤ p`, which the original search with `max_index = 0` satisfied as well) -/
 theorem maxAbsInColumn_range {m : Mat K} {col start p : Nat}
     (h : maxAbsInColumn m col start = .ok p) : p = 0 ∨ start ≤ p := by
   unfold maxAbsInColumn at h
@@ -195,7 +196,7 @@ theorem maxAbsInColumn_range {m : Mat K} {col start p : Nat}
     simp only [pure, Except.pure] at h
     by_cases hle : start ≤ m.rows
     · have := forM'_ok_inv (fun (i : Nat) (s : Nat × K) => s.1 = 0 ∨ start ≤ s.1) start m.rows
-        ((0 : Nat), (0 : K)) s _ hle (Or.inl rfl) (by
+        ((start : Nat), (0 : K)) s _ hle (Or.inr (Nat.le_refl _)) (by
           intro i s s1 hi1 hi2 hP hf
           obtain ⟨idx, mx⟩ := s
           simp only [bind, Except.bind] at hf
@@ -215,7 +216,7 @@ theorem maxAbsInColumn_range {m : Mat K} {col start p : Nat}
       injection hs with hs
       subst hs
       injection h with h
-      exact Or.inl h.symm
+      exact Or.inr (Nat.le_of_eq h)
 
 end Generic
 
